@@ -670,6 +670,23 @@ pub fn run(ctx: &Ctx) -> Report {
     rep
 }
 
+/// Writes `n` generated raw cases as replay documents (development aid: run
+/// each in its own process to see which ones kill it).
+pub fn dump_raw_cases(seed: u64, n: usize, out: &str) {
+    use proptest::strategy::ValueTree;
+    use proptest::test_runner::{Config, RngAlgorithm, TestRng, TestRunner};
+    let rng = TestRng::from_seed(RngAlgorithm::ChaCha, &crate::engine::mix_seed(seed, "raw-dump", 0));
+    let mut runner = TestRunner::new_with_rng(Config { failure_persistence: None, ..Config::default() }, rng);
+    let strat = raw_strategy();
+    let _ = std::fs::create_dir_all(out);
+    for i in 0..n {
+        if let Ok(t) = strat.new_tree(&mut runner) {
+            let doc = json!({"property": P, "kind": "raw", "case": t.current()});
+            let _ = std::fs::write(format!("{out}/raw-{i:05}.json"), doc.to_string());
+        }
+    }
+}
+
 /// Hand-made cases of the defects this check found and the repository
 /// repaired (printed by `msiverif dump C09`; stored under regress/).
 pub fn canned() -> Vec<(&'static str, &'static str, Case)> {
